@@ -30,6 +30,7 @@ type Env struct {
 	entryCells   []Val           // inside entry(e): local cells as they were when the loop was entered
 	missingEvent bool // the last evaluation failed because a clause refers to an event that did not happen
 	eventFloor  int // events with a smaller sequence number are invisible (loop back-edge assertions)
+	floorLoop   *ssa.BasicBlock // the loop whose current iteration eventFloor marks
 }
 
 func (x *Exec) envFor(st *State, fr *Frame) *Env {
@@ -606,6 +607,32 @@ func (e *Env) matchEvents(kind string, ex ast.Expr) []Event {
 	return out
 }
 
+// maybeEvent: may an earlier iteration of a loop entered on this path have made a matching call?
+// (the iterations before the current one are summarized at the loop head; their events are not on the path)
+func (e *Env) maybeEvent(kind string, ex ast.Expr) bool { return e.maybeEventOf(kind, ex, -1) != nil }
+
+// maybeEventOf: such a call site of a loop entered after event number `after` on this path.
+func (e *Env) maybeEventOf(kind string, ex ast.Expr, after int) *Event {
+	pat := CallPattern{Kind: kind, Callee: patText(ex)}
+	sp := ""
+	if e.x.fc != nil {
+		sp = shortPkg(e.x.fc.PkgPath)
+	}
+	for _, ev := range e.st.maybe {
+		if ev.Floor < e.eventFloor || ev.Floor <= after {
+			continue
+		}
+		if e.floorLoop != nil && ev.Head == e.floorLoop && ev.Floor == e.eventFloor {
+			continue // the earlier iterations of the loop whose current iteration is looked at
+		}
+		if patternMatches(pat, ev.Kind, ev.Callee, sp) || (ev.Alias != "" && patternMatches(pat, ev.Kind, ev.Alias, sp)) {
+			ev := ev
+			return &ev
+		}
+	}
+	return nil
+}
+
 func (e *Env) evalCall(n *ast.CallExpr) (Val, bool) {
 	x := e.x
 	boolT := types.Typ[types.Bool]
@@ -686,6 +713,7 @@ func (e *Env) evalCall(n *ast.CallExpr) (Val, bool) {
 				for head, mark := range e.frame.loopMark {
 					if body := li.body[head]; body != nil && (body[e.frame.block] || head == e.frame.block) && mark > c.eventFloor {
 						c.eventFloor = mark
+						c.floorLoop = head
 					}
 				}
 			}
@@ -989,8 +1017,16 @@ func (e *Env) evalCall(n *ast.CallExpr) (Val, bool) {
 			return scalar(boolLit(e.lockHeld(l, false, evs[len(evs)-1].Seq)), boolT), true
 		case "called", "went", "deferred", "stored":
 			kind := map[string]string{"called": "call", "went": "go", "deferred": "defer", "stored": "store"}[id.Name]
+			if len(e.matchEvents(kind, n.Args[0])) == 0 && kind != "store" && e.maybeEvent(kind, n.Args[0]) {
+				return scalar(x.fresh("maybe!"+id.Name, sBool), boolT), true
+			}
 			return scalar(boolLit(len(e.matchEvents(kind, n.Args[0])) > 0), boolT), true
 		case "ncalls":
+			if e.maybeEvent("call", n.Args[0]) {
+				more := x.fresh("maybe!ncalls", sInt)
+				x.assume(app(sBool, "<=", tZero, more))
+				return scalar(app(sInt, "+", intLit(int64(len(e.matchEvents("call", n.Args[0])))), more), types.Typ[types.Int]), true
+			}
 			return scalar(intLit(int64(len(e.matchEvents("call", n.Args[0])))), types.Typ[types.Int]), true
 		case "nstores":
 			return scalar(intLit(int64(len(e.matchEvents("store", n.Args[0])))), types.Typ[types.Int]), true
@@ -1016,6 +1052,48 @@ func (e *Env) evalCall(n *ast.CallExpr) (Val, bool) {
 				}
 				back, _ = strconv.Atoi(jv.T.S)
 				rest = rest[1:]
+			}
+			{
+				// the call asked for may have been made by an earlier iteration of a loop entered after
+				// the calls that are on the path: its arguments and results are unknown then
+				lastSeq := -1
+				if len(evs) > 0 && back == 0 {
+					lastSeq = evs[len(evs)-1].Seq
+				}
+				if mev := e.maybeEventOf(kindOf, n.Args[0], lastSeq); mev != nil && mev.CC != nil {
+					idx := 0
+					if len(rest) > 0 {
+						iv, ok := e.eval(rest[0])
+						if !ok || !isNumLit(iv.T.S) {
+							return e.fail("%s: index must be a literal", id.Name)
+						}
+						idx, _ = strconv.Atoi(iv.T.S)
+					}
+					var typ types.Type
+					if id.Name == "lastret" || id.Name == "prevret" {
+						if res := mev.CC.Signature().Results(); idx < res.Len() {
+							typ = res.At(idx).Type()
+						}
+					} else {
+						var ts []types.Type
+						if mev.CC.IsInvoke() {
+							ts = append(ts, mev.CC.Value.Type())
+						}
+						for _, a := range mev.CC.Args {
+							ts = append(ts, a.Type())
+						}
+						if idx < len(ts) {
+							typ = ts[idx]
+						}
+					}
+					if typ == nil {
+						return e.fail("%s: index %d out of range for %s", id.Name, idx, mev.Callee)
+					}
+					x.pure++
+					v := x.freshVal(e.st, typ, "maybe!"+id.Name)
+					x.pure--
+					return v, true
+				}
 			}
 			if len(evs) <= back {
 				e.missingEvent = true
